@@ -4,7 +4,7 @@ import "strings"
 
 func init() {
 	register("C12", &propInfo{
-		Explanation: "The meshing and rasterising pipelines contain no structural source of schedule- or iteration-order dependence: W the worker goroutines of mc.go, marching.go, dc.go and rasterize.go write shared memory only at addresses indexed by their own work item or under a lock (results are merged through channels / a locked reduce); ND no global randomness or clock is reachable from the entry points except the documented opt-in estimator, and every map iteration in the pipeline files is a reviewed site; A1.ORBIT the marching-cubes base cases have disjoint orbits, so the random map iteration order in mcLookupTable cannot change the table; CS.RANGE block splitting produces index ranges that meet exactly; OL the documented concurrency/buffer options are read.",
+		Explanation: "The meshing and rasterising pipelines contain no structural source of schedule- or iteration-order dependence: W the worker goroutines of mc.go, marching.go, dc.go and rasterize.go write shared memory only at addresses indexed by their own work item or under a lock (results are merged through channels / a locked reduce); ND no global randomness or clock is reachable from the entry points except the documented opt-in estimator, and every map iteration in the pipeline files is a reviewed site; A1.ORBIT the marching-cubes base cases have disjoint orbits, so the random map iteration order in mcLookupTable cannot change the table; CS.RANGE block splitting produces index ranges that meet exactly; OL the documented concurrency/buffer options are read; AXIS in the rasteriser no purely X-derived quantity is added to, compared with or put in the slot of a purely Y-derived one (pixel rectangles handed to the region filter are built from the right pixel size).",
 		Trusted:     []string{"go/ssa, the RTA-seeded VTA call graph", "the reviewed tables of checker/nd.go (3 map-iteration functions, 2 random-source functions, with reasons)", "effect engine assumptions of C13"},
 		Fixtures:    []string{"w"},
 		Run: func(c *Ctx) {
@@ -25,6 +25,8 @@ func init() {
 			c.floor("OL", 2)
 			c.runWrongVar("WRONGVAR", c.libPkgs()[:3], nil)
 			c.floor("WRONGVAR", 2)
+			c.runAxisTags("AXIS", c.libPkgs()[1:2], c.fileFilter("model2d/rasterize.go"))
+			c.floor("AXIS", 8)
 		},
 		SelfTest: []Mutation{
 			{Name: "dual contouring workers append to the shared interior list", File: "model3d/dc.go",
@@ -40,6 +42,8 @@ func init() {
 				More: [][2]string{{"import (\n", "import (\n\t\"math/rand\"\n"}}, Rule: "ND.RAND", Expect: "Split"},
 			{Name: "triangles of a cell emitted in map order into a slice", File: "model3d/mc.go",
 				Old: "func (m *mcBlock) Split() (mcBlock, mcBlock) {\n", New: "func (m *mcBlock) Split() (mcBlock, mcBlock) {\n\tfor k := range map[int]bool{1: true, 2: true} {\n\t\tm.min[0] += k - k\n\t}\n", Rule: "ND.MAP", Expect: "Split"},
+			{Name: "filter rectangle's y extent scaled by the pixel width", File: "model2d/rasterize.go",
+				Old: "float64(y+1)*pixelHeight+min.Y", New: "float64(y+1)*pixelWidth+min.Y", All: true, Rule: "AXIS", Expect: "Rasterize"},
 			{Name: "MaxGos ignored", File: "model3d/dc.go",
 				Old: "d.MaxGos", New: "0", All: true, Rule: "OL", Expect: "MaxGos"},
 		},
